@@ -5,6 +5,8 @@ package main
 import (
 	"math"
 	"math/big"
+	"os"
+	"strconv"
 
 	"google.golang.org/protobuf/encoding/protowire"
 )
@@ -429,4 +431,25 @@ func entryAtBoundary(r *rng, kk, vk Kind, k, v *Val) (*Val, *Val) {
 		}
 	}
 	return k, v
+}
+
+// genMsgCapped draws a message value like genMsg and, when its text form exceeds the cap (VERIF_MAX_VAL characters,
+// default 90000, about 45 KB of encoding), draws again with a smaller nesting budget. The extracted model's encoder
+// appends to an immutable list, so its cost grows with (size x number of nested frames); values of 100 KB and more
+// cost tens of seconds each there and are left to the thorough tier. All length classes a test can reach (1, 2 and
+// 3 byte prefixes) stay below the cap.
+func (u *Universe) genMsgCapped(r *rng, ti *TypeInfo, g genOpts) *Val {
+	limit := 90000
+	if s := os.Getenv("VERIF_MAX_VAL"); s != "" {
+		if n, err := strconv.Atoi(s); err == nil && n > 0 {
+			limit = n
+		}
+	}
+	for {
+		v := u.genMsg(r, ti, 'm', g)
+		if g.depth <= 0 || len(v.String()) <= limit {
+			return v
+		}
+		g.depth--
+	}
 }
